@@ -40,8 +40,19 @@ def values():
         else:
             out.append((j, None, "J", True))
         out.append((j, "J", "J", True))
-    for j in [{"a": "x\ty"}, ["é"]]:
-        out.append((j, "J", "J", None))
+    # strings inside JSON may hold anything: the encoder escapes what the field cannot contain (\t, \u00e9): printable text, read back equal
+    for j in [{"a": "x\ty"}, ["é"], {"author": "Müller", "n": ["日本", 1]}, {"é": 1}, ["a\nb", "\x7f"]]:
+        out.append((j, "J", "J", True)); out.append((j, None, "J", True))
+    # what JSON cannot represent, or represents as something else, is reported: non-finite numbers, keys which are not strings, tuples, sets
+    for j in [{"a": float("nan")}, [float("inf"), "x"], {1: "a"}, [1, (2, 3)], [{1, 2}], {"a": object}]:
+        out.append((j, "J", "J", False)); out.append((j, None, "J", False))
+    # booleans are not integers of a tag, nor elements of a numeric array; a float array holds finite values; an integer too large for a float
+    out.append((True, None, "i", False)); out.append((False, "i", "i", False))
+    out.append(([True, False], None, "B", False)); out.append(([float("inf")], None, "B", False)); out.append(([1.5, float("nan")], "B", "B", False))
+    out.append((10**400, "f", "f", False)); out.append((-10**400, "f", "f", False))
+    out.append((2**70, "f", "f", True))
+    # a string given for an H tag is hex text: an odd number of digits is not a byte array
+    out.append(("ABC", "H", "H", False)); out.append(("0g", "H", "H", False))
     for lo_hi in [(0, 255), (0, 256), (-128, 127), (-129, 0), (-1, 128), (0, 65535), (0, 65536), (-32768, 32767), (-32769, 1), (0, 2**32 - 1), (-2**31, 2**31 - 1)]:
         arr = [lo_hi[0], 3, lo_hi[1]]
         out.append((gfapy.NumericArray(arr), None, "B", True)); out.append((gfapy.NumericArray(arr), "B", "B", True))
